@@ -123,6 +123,8 @@ func (e *Engine) verifyContract(ct *Contract) (res *FnResult) {
 		}
 		penv.Results = append(penv.Results, TVal{T: r.T, Ty: ty, P: r.P})
 	}
+	// ghost assignments: the ghost variable takes the value of the expression (evaluated at exit)
+	fc.applyGhostSets(ct, penv, exit)
 	for _, cl := range ct.Ensures {
 		parts := fc.evalClauseParts(penv, cl)
 		for i, t := range parts {
@@ -204,6 +206,38 @@ func (e *Engine) verifyLemma(ct *Contract, res *FnResult, te *TypeEnv, S *Script
 		t := fc.evalClause(env, cl)
 		ob := &Obligation{Name: fmt.Sprintf("%s#ensures[%s]", res.FullName, cl.Label), Func: res.FullName, Kind: "ensures", Label: cl.Label, Goal: t, Serves: ct.Serves, Clause: cl.Src, Known: cl.Known}
 		S.Oblige(ob)
+	}
+}
+
+// applyGhostSets: "ghost-set g = e" defines the value of ghost variable g when
+// the function returns. Only a ghost may be assigned, so a ghost-set can never
+// constrain program state.
+func (fc *FnCtx) applyGhostSets(ct *Contract, env *SpecEnv, st *State) {
+	var vals []Term
+	var hvs []HeapVar
+	for _, ga := range ct.GhostSet {
+		g := fc.E.ghost(ct.PkgPath, ga.Name)
+		if g == nil {
+			panic(unsupported{"ghost-set: " + ga.Name + " is not a ghost variable"})
+		}
+		var t TVal
+		func() {
+			defer func() {
+				if r := recover(); r != nil {
+					if se, ok := r.(specErr); ok {
+						panic(unsupported{"ghost-set " + ga.Name + ": " + se.msg})
+					}
+					panic(r)
+				}
+			}()
+			t = env.eval(ga.Expr)
+		}()
+		gt, kind := env.resolveType(g.Type)
+		hvs = append(hvs, HeapVar{"$g." + ga.Name, env.sortOfKind(gt, kind), HGhost})
+		vals = append(vals, t.T)
+	}
+	for i, hv := range hvs {
+		st.Heap[hv.Name] = fc.S.Name(hv.Name, vals[i])
 	}
 }
 
